@@ -1,6 +1,7 @@
 package main
 
 import (
+	. "digverif/vt"
 	"fmt"
 	"math/rand"
 	"reflect"
